@@ -158,8 +158,22 @@ class MementoFunction(MementoFunctionBase):
     explicit_version = None  # type: Optional[str]
     _calculated_version = None  # type: Optional[str]
 
+    def _refresh_pinned_version(self):
+        """
+        A modifier clone of an automatically versioned function carries that function's
+        computed version as an explicit one. Follow the function when its version changes
+        (e.g. because one of its dependencies was edited after the clone was made).
+        """
+        if self._auto_version_source is not None:
+            version = self._auto_version_source.version()
+            if version != self.explicit_version:
+                self.explicit_version = version
+                self._calculated_version = version
+                self._fn_reference = None
+
     def version(self) -> str:
         """Version of this function, usually computed using the code hash and dependencies"""
+        self._refresh_pinned_version()
         if self.explicit_version is not None:
             return self.explicit_version
 
@@ -425,6 +439,7 @@ class MementoFunction(MementoFunctionBase):
         """Assemble dependencies and update the version and fn_reference"""
 
         # If version is explicitly specified, function reference is static.
+        self._refresh_pinned_version()
         if self.explicit_version is not None:
             if self._fn_reference is None:
                 self._update_fn_reference()
